@@ -28,10 +28,14 @@ MCSizes == ${Sizes}
 View == sv
 Obs == [m |-> MatchSet(b), keys |-> TrieKeys(b.t), dnil |-> b.dnil, tnil |-> b.t.nil,
         n |-> [d |-> Cardinality(b.d), s |-> KeyCount(b.t), k |-> Len(b.k), r |-> Len(b.r)]]
-Emit == PrintT("EDGE " \o ToJson([f |-> sv, a |-> act', t |-> sv', o |-> Obs']))
+\* The labelled state graph: one EDGE line per transition (states and action only: primed expressions
+\* are evaluated without caching, so the observation is not computed here) and one STATE line per
+\* distinct state with the observation; the runner joins them.
+Emit == PrintT("EDGE " \o ToJson([f |-> sv, a |-> act', t |-> sv']))
+StateOut == PrintT("STATE " \o ToJson([s |-> sv, o |-> Obs]))
 Table == {[kind |-> "d", bk |-> bk, n |-> n, sel |-> SelDomain(bk, n)] : bk \in DomainBuilders, n \in Sizes}
          \cup {[kind |-> "s", bk |-> bk, n |-> n, sel |-> SelSuffix(bk, n)] : bk \in SuffixBuilders, n \in Sizes}
-EmitInit == PrintT("INIT " \o ToJson([t |-> sv, o |-> Obs]))
+EmitInit == PrintT("INIT " \o ToJson([t |-> sv]))
 ASSUME PrintT("TABLE " \o ToJson(Table))
 InitE == Init /\ EmitInit
 
